@@ -40,6 +40,17 @@ func (e *Engine) concreteEq(a, b Value) bool {
 	case string:
 		y, ok := b.(string)
 		return ok && x == y
+	case SymStr:
+		y, ok := b.(SymStr)
+		if !ok || x.kind != y.kind || len(x.parts) != len(y.parts) {
+			return false
+		}
+		for i := range x.parts {
+			if !e.concreteEq(x.parts[i], y.parts[i]) {
+				return false
+			}
+		}
+		return true
 	case IfaceV:
 		y, ok := b.(IfaceV)
 		if !ok {
@@ -50,7 +61,10 @@ func (e *Engine) concreteEq(a, b Value) bool {
 		}
 		return types.Identical(x.t, y.t) && e.concreteEq(x.v, y.v)
 	case StructV:
-		y := b.(StructV)
+		y, ok := b.(StructV)
+		if !ok || len(x) != len(y) {
+			return false
+		}
 		for i := range x {
 			if !e.concreteEq(x[i], y[i]) {
 				return false
@@ -108,7 +122,20 @@ func (e *Engine) binop(in *ssa.BinOp, xv, yv Value) (Value, string) {
 			return B(eq), ""
 		}
 		return B(!eq), ""
+	case SymStr:
+		if in.Op == token.EQL || in.Op == token.NEQ {
+			eq := e.concreteEq(x, yv)
+			if in.Op == token.EQL {
+				return B(eq), ""
+			}
+			return B(!eq), ""
+		}
+		return nil, "string op " + in.Op.String() + " on symbolic string"
 	case string:
+		if ys, isSym := yv.(SymStr); isSym && (in.Op == token.EQL || in.Op == token.NEQ) {
+			_ = ys
+			return B(in.Op == token.NEQ), "" // a literal never equals a formatted value (assumption of the string model)
+		}
 		y, ok := yv.(string)
 		if !ok {
 			return nil, "string op with opaque"
@@ -280,6 +307,8 @@ func (e *Engine) convert(v Value, from, to types.Type) (Value, string) {
 		return x, ""
 	case Opaque:
 		return x, ""
+	case SymStr:
+		return x, "" // string <-> []byte conversions keep the symbolic string
 	case SliceV:
 		if tb, ok := to.Underlying().(*types.Basic); ok && tb.Info()&types.IsString != 0 {
 			return "<bytes-as-string>", ""
